@@ -84,8 +84,13 @@ class PeerTransport(FakeTransport):
         return n
 
 
+class Runaway(Exception):
+    """the client call did not finish within the harness' round limit"""
+
+
 class Env:
     """One scripted world: pins, peers, recorded connections."""
+    max_rounds = 20
 
     def __init__(self, tofu_on=True):
         self.db = DB()
@@ -171,8 +176,10 @@ class Env:
         guard = 0
         while not task.done():
             guard += 1
-            if guard > 20:
-                raise HarnessError("client call does not finish")
+            if guard > self.max_rounds:
+                # the call keeps opening connections: hand that fact to the oracle
+                task.cancel()
+                return None, Runaway("client still running after %d answered connections" % len(self.conns))
             pend = [t for t in self.conns if not t.answered and not t.closed]
             if not pend:
                 # nothing left to answer: let virtual time pass (timeouts)
